@@ -202,10 +202,11 @@ func (wg *WaitGroup) Add(d int) {
 func (wg *WaitGroup) Done() { wg.Add(-1) }
 func (wg *WaitGroup) Wait() {
 	for {
-		wg.m.Lock()
-		z := wg.n == 0
-		wg.m.Unlock()
-		if z {
+		// the check and the park must not be separated by a scheduling point, or a Done in
+		// between would be a lost wake-up: read the counter without taking the lock
+		if wg.zero() {
+			wg.m.Lock() // happens-before edge from the last Done
+			wg.m.Unlock()
 			return
 		}
 		if !simrt.Active() {
@@ -214,6 +215,9 @@ func (wg *WaitGroup) Wait() {
 		simrt.Park(-6)
 	}
 }
+
+//go:norace
+func (wg *WaitGroup) zero() bool { return wg.n == 0 }
 
 // Cond
 type Cond struct {
